@@ -120,10 +120,19 @@ def modifyAt (f : MetaGroup → MetaGroup) : Nat → List MetaGroup → List Met
   | 0, g :: gs => f g :: gs
   | n + 1, g :: gs => g :: modifyAt f n gs
 
+/-- `bind_groups.resize(group_index + 1, empty)` when `group_index >= len` -/
+def pad (gs : List MetaGroup) (set : Nat) : List MetaGroup :=
+  if set < gs.length then gs else gs ++ List.replicate (set + 1 - gs.length) MetaGroup.empty
+
 /-- `register_binding` of either exporter: grow the group vector up to `set`, append to that group -/
 def registerBinding (gs : List MetaGroup) (set : Nat) (b : MetaBinding) : List MetaGroup :=
-  let gs := if set < gs.length then gs else gs ++ List.replicate (set + 1 - gs.length) MetaGroup.empty
-  modifyAt (fun g => { g with bindings := g.bindings ++ [b] }) set gs
+  modifyAt (fun g => { g with bindings := g.bindings ++ [b] }) set (pad gs set)
+
+/-- Metal: `api_slot.set as usize >= ARGUMENT_BUFFER_NAMES.len()` -/
+def overLimit (limit : Option Nat) (set : Nat) : Bool :=
+  match limit with
+  | some l => decide (l ≤ set)
+  | none => false
 
 /-- `descriptor_count`: array length, else 1 (cbuffers: 1) -/
 def descriptorCount : Decl → Nat
@@ -137,7 +146,7 @@ def analyse (limit : Option Nat) : List MetaGroup → List String → List Decl 
     match ob with
     | none => analyse limit gs ns ds bs
     | some b =>
-      if (match limit with | some l => decide (l ≤ b.set) | none => false) then .error (.bindGroup b.set)
+      if overLimit limit b.set then .error (.bindGroup b.set)
       else analyse limit (registerBinding gs b.set { name := n, loc := b.loc, count := descriptorCount d }) ns ds bs
   | gs, _, _, _ => .ok gs
 
